@@ -671,8 +671,8 @@ def run(ctx):
         del res
 
         # ---- 3. deeper simulated histories ------------------------------------------------------------------------
-        for batch in range(1 if quick else 5):
-            res = vlib.tlc("cgmap", "MCCg", cfg="MCCgSim.cfg", timeout=2400, simulate=(6 if quick else 60), depth=5,
+        for batch in range(1 if quick else 3):
+            res = vlib.tlc("cgmap", "MCCg", cfg="MCCgSim.cfg", timeout=2400, simulate=(6 if quick else 50), depth=5,
                            workers=4, seed=ctx.seed * 100 + batch)
             vlib.tlc_must_hold(res, "CgHist simulation")
             ctx.add_tlc("MCCgSim(simulate %d)" % batch, res)
